@@ -2,13 +2,15 @@
 
    Re-exports TreeValidateP (validator = strict tree; parent_of/children_of/ancestors),
    TreeLeavesP (leaf lists, leaf pairs), TreeDropP (drop_level, drop_leaf_level, flatten,
-   drop_cells), TreeLabelsP (get_taxonomy_tree) and adds the one-edit mutants, the F3
-   witnesses and the combined statements used by Props/C10.v.
+   drop_cells), TreeLabelsP (get_taxonomy_tree) and adds the one-edit mutants (among them the
+   repeated child, finding F3, refused since the repair), the two gaps of the validator that are
+   left, and the combined statements used by Props/C10.v.
 
    Lemmas meant for the other models (election / mapping / markers):
      children_parent_of      In c (children_of (nth k t []) p) -> parent_of (nth k t []) c = Some p
      parent_of_children      the converse (needs NoDup keys)
      node_has_parent         every node of level k+1 has a parent at level k
+     validate_inner_nodup / validate_flat / validate_child_lists   no accepted child list repeats a name
      listed_child_exists     every listed child is a node of the next level
      ancestors_path / path_unique / ancestors_levels / ancestors_chk_ok
      leaves_of_children / leaves_of_disjoint / leaves_of_nodup / level_partition
@@ -38,14 +40,55 @@ Theorem validate_sound t : validate t = true ->
   (forall k, (S k < length t)%nat ->
      (forall c, In c (nodes (nth (S k) t [])) ->
         exists p, lists (nth k t []) p c /\ forall p', lists (nth k t []) p' c -> p' = p) /\
-     (forall p c, lists (nth k t []) p c -> In c (nodes (nth (S k) t [])))) /\
+     (forall p c, lists (nth k t []) p c -> In c (nodes (nth (S k) t []))) /\
+     (forall p cs, In (p, cs) (nth k t []) -> NoDup cs)) /\
   NoDup (leaf_rows t) /\
-  (forall l l' r, lists (leaf_level t) l r -> lists (leaf_level t) l' r -> l = l').
+  (forall l l' r, lists (leaf_level t) l r -> lists (leaf_level t) l' r -> l = l') /\
+  inner_nodup t.
 Proof.
-  intros V. pose proof (proj1 (validate_iff t) V) as (NE & S & R). split; [exact NE|]. split; [|split; [exact R|]].
-  - intros k Hk. destruct (S k Hk) as (S1 & S2 & S3). split; [|exact S2].
-    intros c Hc. destruct (S1 c Hc) as [p Hp]. exists p. split; [exact Hp|]. intros p' Hp'. apply (S3 p' p c); assumption.
+  intros V. pose proof (proj1 (validate_iff t) V) as (NE & S & R & F). split; [exact NE|].
+  split; [|split; [exact R|split; [|apply validate_inner_nodup; exact V]]].
+  - intros k Hk. destruct (S k Hk) as (S1 & S2 & S3). split; [|split; [exact S2|]].
+    + intros c Hc. destruct (S1 c Hc) as [p Hp]. exists p. split; [exact Hp|]. intros p' Hp'. apply (S3 p' p c); assumption.
+    + apply flat_nodup_child_lists. apply F. exact Hk.
   - intros l l' r. apply rows_one_leaf. exact V.
+Qed.
+
+(* the verdict, unfolded: for any list of levels, and for Python dicts (pairwise different keys),
+   where "the child lists laid end to end repeat no name" splits into one parent per child and
+   no repeat inside a list *)
+Theorem validate_exact t :
+  validate t = true <->
+  t <> [] /\
+  (forall k, (S k < length t)%nat ->
+     (forall c, In c (nodes (nth (S k) t [])) -> exists p, lists (nth k t []) p c) /\
+     (forall p c, lists (nth k t []) p c -> In c (nodes (nth (S k) t []))) /\
+     (forall p p' c, lists (nth k t []) p c -> lists (nth k t []) p' c -> p = p') /\
+     NoDup (concat (map snd (nth k t [])))) /\
+  NoDup (leaf_rows t).
+Proof.
+  rewrite validate_iff. unfold strict_pair, flat_nodup. split.
+  - intros (NE & S & R & F). split; [exact NE|]. split; [|exact R].
+    intros k Hk. destruct (S k Hk) as (S1 & S2 & S3). repeat (split; [assumption|]). apply F. exact Hk.
+  - intros (NE & S & R). split; [exact NE|]. split; [|split; [exact R|]].
+    + intros k Hk. destruct (S k Hk) as (S1 & S2 & S3 & _). repeat (split; [assumption|]). exact S3.
+    + intros k Hk. destruct (S k Hk) as (_ & _ & _ & S4). exact S4.
+Qed.
+
+Theorem validate_exact_dict t : wf t ->
+  (validate t = true <->
+   t <> [] /\
+   (forall k, (S k < length t)%nat ->
+      (forall c, In c (nodes (nth (S k) t [])) -> exists p, lists (nth k t []) p c) /\
+      (forall p c, lists (nth k t []) p c -> In c (nodes (nth (S k) t []))) /\
+      (forall p p' c, lists (nth k t []) p c -> lists (nth k t []) p' c -> p = p') /\
+      (forall p cs, In (p, cs) (nth k t []) -> NoDup cs)) /\
+   NoDup (leaf_rows t)).
+Proof.
+  intros W. rewrite validate_exact. split; intros (NE & S & R); (split; [exact NE|]); (split; [|exact R]);
+    intros k Hk; destruct (S k Hk) as (S1 & S2 & S3 & S4); repeat (split; [assumption|]).
+  - apply flat_nodup_child_lists. exact S4.
+  - apply all_children_nodup; [apply wf_nth; exact W | exact S4 | exact S3].
 Qed.
 
 (* ------------------------------------------------------------------ completeness: defects *)
@@ -58,19 +101,21 @@ Theorem validate_complete t :
      -> validate t = false) /\
   ((exists l l' r, lists (leaf_level t) l r /\ lists (leaf_level t) l' r /\ l <> l')
      -> validate t = false) /\
-  ((exists l rs, In (l, rs) (leaf_level t) /\ ~ NoDup rs) -> validate t = false).
+  ((exists l rs, In (l, rs) (leaf_level t) /\ ~ NoDup rs) -> validate t = false) /\
+  ((exists k p cs, (S k < length t)%nat /\ In (p, cs) (nth k t []) /\ ~ NoDup cs) -> validate t = false).
 Proof.
   assert (G : forall P : Prop, (validate t = true -> ~ P) -> P -> validate t = false).
   { intros P H HP. destruct (validate t) eqn:E; [exfalso; apply (H eq_refl HP) | reflexivity]. }
-  split; [|split; [|split; [|split]]]; apply G; intros V.
+  split; [|split; [|split; [|split; [|split]]]]; apply G; intros V.
   - intros (k & c & Hk & Hc & Hn). destruct (validate_strict t k V Hk) as (S1 & _ & _).
     destruct (S1 c Hc) as [p Hp]. apply (Hn p Hp).
   - intros (k & p & c & Hk & Hl & Hn). destruct (validate_strict t k V Hk) as (_ & S2 & _). apply Hn, (S2 p c Hl).
   - intros (k & p & p' & c & Hk & Hl & Hl' & Hne). destruct (validate_strict t k V Hk) as (_ & _ & S3).
     apply Hne, (S3 p p' c); assumption.
   - intros (l & l' & r & Hl & Hl' & Hne). apply Hne. apply (rows_one_leaf t l l' r V Hl Hl').
-  - intros (l & rs & Hin & Hn). apply Hn. pose proof (proj1 (validate_iff t) V) as (_ & _ & R).
+  - intros (l & rs & Hin & Hn). apply Hn. pose proof (proj1 (validate_iff t) V) as (_ & _ & R & _).
     unfold leaf_rows in R. destruct (concat_nodup_entries _ R) as (R1 & _). apply (R1 l rs Hin).
+  - intros (k & p & cs & Hk & Hin & Hn). apply Hn. apply (validate_child_lists t k V Hk p cs Hin).
 Qed.
 
 (* ------------------------------------------------------------------ completeness: one-edit mutants *)
@@ -125,9 +170,12 @@ Theorem mutants_rejected t :
      validate (replace_nth (S k) (add_node (nth (S k) t []) c cs) t) = false) /\
   (* shared row: a row that some leaf owns is appended to a leaf (another one, or the same) *)
   (forall l l' r, t <> [] -> lists (leaf_level t) l r -> In l' (nodes (leaf_level t)) ->
-     validate (replace_nth (length t - 1) (add_child (leaf_level t) l' r) t) = false).
+     validate (replace_nth (length t - 1) (add_child (leaf_level t) l' r) t) = false) /\
+  (* duplicate child (finding F3, repaired): a child that p lists is listed under p once more *)
+  (forall k p c, (S k < length t)%nat -> lists (nth k t []) p c ->
+     validate (replace_nth k (add_child (nth k t []) p c) t) = false).
 Proof.
-  split; [|split; [|split]].
+  split; [|split; [|split; [|split]]].
   - intros k p c Hk Hp Hn. apply (proj1 (proj2 (validate_complete _))).
     exists k, p, c. rewrite replace_nth_length. split; [exact Hk|].
     rewrite !nth_replace_nth by lia. rewrite Nat.eqb_refl. replace (S k =? k)%nat with false by (symmetry; apply Nat.eqb_neq; lia).
@@ -142,7 +190,7 @@ Proof.
     split; [|exact Hn]. unfold add_node, nodes. rewrite map_app. apply in_or_app. right. left. reflexivity.
   - intros l l' r NE Hl Hl'.
     destruct (validate (replace_nth (length t - 1) (add_child (leaf_level t) l' r) t)) eqn:V; [exfalso | reflexivity].
-    pose proof (proj1 (validate_iff _) V) as (_ & _ & R). unfold leaf_rows in R.
+    pose proof (proj1 (validate_iff _) V) as (_ & _ & R & _). unfold leaf_rows in R.
     rewrite leaf_level_replace_last in R by exact NE.
     destruct (concat_nodup_entries _ R) as (R1 & R2).
     destruct (in_nodes_entry _ _ Hl') as [rs' Hin'].
@@ -161,40 +209,19 @@ Proof.
       assert (E : (l, rs) = (l', rs' ++ [r])).
       { apply (R2 l l' rs (rs' ++ [r]) r Hold Hnew Hr). apply in_or_app. right. left. reflexivity. }
       congruence.
+  - intros k p c Hk (cs & Hin & Hc). apply (proj2 (proj2 (proj2 (proj2 (proj2 (validate_complete _)))))).
+    exists k, p, (cs ++ [c]). rewrite replace_nth_length. split; [exact Hk|].
+    rewrite nth_replace_nth by lia. rewrite Nat.eqb_refl. split.
+    + unfold add_child. apply in_map_iff. exists (p, cs). cbn [fst snd]. rewrite Z.eqb_refl. split; [reflexivity | exact Hin].
+    + intros ND. apply NoDup_app_inv in ND. destruct ND as (_ & _ & D). apply (D c Hc). left. reflexivity.
 Qed.
 
-(* ------------------------------------------------------------------ F3: what the validator does not reject *)
-(* the validator sees child lists only as sets: repeating a listed child never changes its verdict *)
-Lemma strict_pair_lists_ext pl pl' cl :
-  (forall p c, lists pl' p c <-> lists pl p c) -> strict_pair pl cl -> strict_pair pl' cl.
-Proof.
-  intros E (S1 & S2 & S3). split; [|split].
-  - intros c Hc. destruct (S1 c Hc) as [p Hp]. exists p. apply E. exact Hp.
-  - intros p c Hl. apply (S2 p). apply E. exact Hl.
-  - intros p p' c Hl Hl'. apply (S3 p p' c); apply E; assumption.
-Qed.
-
-Theorem dup_child_accepted t k p c : validate t = true -> (S k < length t)%nat -> lists (nth k t []) p c ->
-  validate (replace_nth k (add_child (nth k t []) p c) t) = true.
-Proof.
-  intros V Hk Hl. pose proof (proj1 (validate_iff t) V) as (NE & SP & R). apply validate_iff.
-  assert (Ex : forall q d, lists (add_child (nth k t []) p c) q d <-> lists (nth k t []) q d).
-  { intros q d. rewrite add_child_lists. split; [|tauto]. intros [H|(-> & -> & _)]; [exact H | exact Hl]. }
-  split; [destruct t; [congruence | destruct k; discriminate]|]. split.
-  - rewrite replace_nth_length. intros j Hj. rewrite !nth_replace_nth by lia.
-    destruct (j =? k)%nat eqn:E1; destruct (S j =? k)%nat eqn:E2.
-    + apply Nat.eqb_eq in E1, E2. lia.
-    + apply Nat.eqb_eq in E1. subst j. apply (strict_pair_lists_ext (nth k t [])); [exact Ex | apply SP; exact Hj].
-    + apply Nat.eqb_eq in E2. subst k. destruct (SP j Hj) as (S1 & S2 & S3).
-      split; [|split; [|exact S3]]; rewrite add_child_nodes; assumption.
-    + apply SP. exact Hj.
-  - unfold leaf_rows, leaf_level in *. rewrite !last_is_nth in *. rewrite replace_nth_length.
-    rewrite nth_replace_nth by lia. replace (length t - 1 =? k)%nat with false by (symmetry; apply Nat.eqb_neq; lia).
-    exact R.
-Qed.
-
+(* ------------------------------------------------------------------ F3 (repaired) and the gaps that are left *)
+(* the witnesses of finding F3: a child listed twice.  Accepted before the repair (the leaf pairs
+   then held (1,1) and (1,2) twice, as_leaves repeated leaf 1, drop_leaf_level raised); refused now *)
 Definition f3_tree : tree := [[(0, [1; 1; 2])]; [(1, []); (2, [])]].
 Definition f3_tree_rows : tree := [[(0, [1; 1; 2])]; [(1, [7]); (2, [8])]].
+(* still accepted: an inner node without children, an empty level *)
 Definition childless_tree : tree := [[(0, [2]); (1, [])]; [(2, [5])]].
 Definition empty_level_tree : tree := [[(0, [])]; []].
 
@@ -204,43 +231,17 @@ Proof.
   apply (proj1 (forallb_forall _ _) H lv Hlv).
 Qed.
 
-Lemma leaf_pairs_refuted : exists t p,
-  validate t = true /\ Forall (fun lv => NoDup (nodes lv)) t /\
-  (exists a, In (a, a) (leaf_pairs t p)) /\ ~ NoDup (leaf_pairs t p).
-Proof.
-  exists f3_tree, (Some (0%nat, 0)). split; [vm_compute; reflexivity|]. split; [apply wf_small; reflexivity|].
-  split; [exists 1; vm_compute; tauto|]. vm_compute. intros H. rewrite !NoDup_cons_iff in H.
-  destruct H as (_ & Hn & _). apply Hn. left. reflexivity.
-Qed.
-
-Lemma leaves_partition_refuted : exists t x,
-  validate t = true /\ Forall (fun lv => NoDup (nodes lv)) t /\ ~ NoDup (leaves_of t 0 x).
-Proof.
-  exists f3_tree, 0. split; [vm_compute; reflexivity|]. split; [apply wf_small; reflexivity|].
-  vm_compute. intros H. rewrite !NoDup_cons_iff in H. destruct H as (Hn & _). apply Hn. left. reflexivity.
-Qed.
-
-Lemma drop_leaf_refuted : exists t,
-  validate t = true /\ Forall (fun lv => NoDup (nodes lv)) t /\ (2 <= length t)%nat /\
-  drop_leaf_level t = TErr E_INVALID.
-Proof.
-  exists f3_tree_rows. split; [vm_compute; reflexivity|]. split; [apply wf_small; reflexivity|].
-  split; [cbn; lia | vm_compute; reflexivity].
-Qed.
+Lemma f3_rejected : validate f3_tree = false /\ validate f3_tree_rows = false /\ wf f3_tree /\ wf f3_tree_rows.
+Proof. split; [reflexivity|]. split; [reflexivity|]. split; apply wf_small; reflexivity. Qed.
 
 Lemma validator_gaps :
-  (validate f3_tree = true /\ ~ inner_nodup f3_tree) /\
   (validate childless_tree = true /\ children_of (nth 0 childless_tree []) 1 = []) /\
   (validate empty_level_tree = true /\ nth 1 empty_level_tree [(0, [])] = []).
-Proof.
-  split; [|split]; (split; [vm_compute; reflexivity|]); try reflexivity.
-  intros [N _]. specialize (N 0 [1; 1; 2] (or_introl eq_refl)). rewrite !NoDup_cons_iff in N.
-  destruct N as (Hn & _). apply Hn. left. reflexivity.
-Qed.
+Proof. split; (split; [vm_compute; reflexivity | reflexivity]). Qed.
 
 (* ------------------------------------------------------------------ leaf pairs, including leaf-level parents *)
 Theorem leaf_pairs_exact_all t parent :
-  validate t = true -> wf t -> inner_nodup t ->
+  validate t = true -> wf t ->
   (forall li x, parent = Some (li, x) -> (li < length t)%nat) ->
   NoDup (leaf_pairs t parent) /\
   forall a b,
@@ -249,7 +250,7 @@ Theorem leaf_pairs_exact_all t parent :
                           In a (leaves_of t (child_level parent) c) /\
                           In b (leaves_of t (child_level parent) c').
 Proof.
-  intros V W N Hp.
+  intros V W Hp.
   destruct parent as [[li x]|]; [|apply leaf_pairs_exact; try assumption; intros; discriminate].
   assert (Hli : (li < length t)%nat) by (apply (Hp li x); reflexivity).
   destruct (Nat.eq_dec (S li) (length t)) as [E|E].
@@ -259,30 +260,6 @@ Proof.
     intros (_ & c & c' & _ & _ & _ & Ha & _). cbn [child_level] in Ha. unfold leaves_of in Ha.
     rewrite E, skipn_all in Ha. destruct Ha.
   - apply leaf_pairs_exact; try assumption. intros li' x' E'. inversion E'; subst. lia.
-Qed.
-
-(* ------------------------------------------------------------------ drop keeps child lists repetition-free *)
-Lemma merge_child_nodup pl dl gl :
-  strict_pair dl gl -> child_lists_nodup pl -> child_lists_nodup dl -> child_lists_nodup (merge_level pl dl).
-Proof.
-  intros (_ & _ & U) Np Nd p cs Hin. unfold merge_level in Hin. apply in_map_iff in Hin.
-  destruct Hin as ([q cs0] & E & Hin). cbn [fst snd] in E. inversion E; subst.
-  apply NoDup_flat_map; [apply (Np _ _ Hin) | intros d _; apply children_of_nodup; exact Nd|].
-  intros d d' _ _ Hne g Hg Hg'. apply Hne. apply (U d d' g); apply children_of_lists; assumption.
-Qed.
-
-Lemma raw_drop_inner_nodup t li : validate t = true -> (S li < length t)%nat ->
-  inner_nodup t -> inner_nodup (raw_drop t li).
-Proof.
-  intros V H N. apply inner_nodup_of_nth. rewrite raw_drop_length by lia. intros k Hk.
-  rewrite raw_drop_nth by lia.
-  destruct (S k =? li)%nat eqn:E1.
-  - apply Nat.eqb_eq in E1. subst li.
-    apply (merge_child_nodup _ _ (nth (S (S k)) t [])).
-    + apply validate_strict; [exact V | lia].
-    + apply inner_nodup_nth; [exact N | lia].
-    + apply inner_nodup_nth; [exact N | lia].
-  - destruct (k <? li)%nat; apply inner_nodup_nth; try exact N; lia.
 Qed.
 
 (* ------------------------------------------------------------------ combined statements for Props/C10.v *)
@@ -306,25 +283,24 @@ Proof.
 Qed.
 
 Theorem leaves_partition_thm t : validate t = true -> wf t ->
-  (* always: a node's leaf list is the multiset union of its children's, and different nodes of a level share no leaf *)
+  (* a node's leaf list is the union of its children's, which are pairwise disjoint and repeat no leaf *)
   (forall k x, (S k < length t)%nat ->
      Permutation (leaves_of t k x) (flat_map (leaves_of t (S k)) (children_of (nth k t []) x))) /\
+  (forall k x, (S k < length t)%nat ->
+     NoDup (flat_map (leaves_of t (S k)) (children_of (nth k t []) x))) /\
+  (forall k x, NoDup (leaves_of t k x)) /\
+  (* different nodes of a level share no leaf, and every level partitions the leaf set *)
   (forall k x x' l, In l (leaves_of t k x) -> In l (leaves_of t k x') -> x = x') /\
   (forall k, (k < length t)%nat ->
-     nth k (as_leaves t) [] = map (fun x => (x, leaves_of t k x)) (nodes (nth k t []))) /\
-  (* with repetition-free child lists: no leaf is counted twice, and every level partitions the leaf set *)
-  (inner_nodup t ->
-     (forall k x, NoDup (leaves_of t k x)) /\
-     (forall k x, (S k < length t)%nat ->
-        NoDup (flat_map (leaves_of t (S k)) (children_of (nth k t []) x))) /\
-     (forall k, (k < length t)%nat ->
-        Permutation (flat_map (leaves_of t k) (nodes (nth k t []))) (nodes (leaf_level t)))).
+     Permutation (flat_map (leaves_of t k) (nodes (nth k t []))) (nodes (leaf_level t))) /\
+  (forall k, (k < length t)%nat ->
+     nth k (as_leaves t) [] = map (fun x => (x, leaves_of t k x)) (nodes (nth k t []))).
 Proof.
   intros V W. split; [intros k x; apply leaves_of_children; exact V|].
+  split; [intros k x Hk; apply (leaves_partition t V k x Hk)|].
+  split; [intros k x; apply leaves_of_nodup; exact V|].
   split; [intros k x x' l; apply leaves_of_disjoint; exact V|].
-  split; [intros k; apply as_leaves_nth|].
-  intros N. split; [intros k x; apply leaves_of_nodup; assumption|].
-  split; [intros k x Hk; apply (leaves_partition t V N k x Hk) | intros k Hk; apply level_partition; assumption].
+  split; [intros k Hk; apply level_partition; assumption | intros k; apply as_leaves_nth].
 Qed.
 
 (* is_equal_to ignores the cells *)
@@ -486,7 +462,7 @@ Theorem drop_preserves t li : validate t = true -> wf t -> (S li < length t)%nat
     (forall k, nodes (nth k t' []) = nodes (nth (up_level li k) t [])) /\
     (forall j x, ancestors t' j x = squash li (ancestors t (up_level li j) x)) /\
     (forall j x k, ancestor_at t' j x k = ancestor_at t (up_level li j) x (up_level li k)) /\
-    (inner_nodup t -> inner_nodup t').
+    inner_nodup t'.
 Proof.
   intros V W H. exists (raw_drop t li). split; [apply drop_level_accepted; assumption|].
   destruct (raw_drop_validate t li V W H) as [V' LL].
@@ -498,11 +474,10 @@ Proof.
     replace (k <? S k)%nat with true by (symmetry; apply Nat.ltb_lt; lia). reflexivity.
   - intros j x. apply raw_drop_ancestors; assumption.
   - intros j x k. apply raw_drop_ancestor_at; assumption.
-  - apply raw_drop_inner_nodup; assumption.
+  - apply validate_inner_nodup. exact V'.
 Qed.
 
 Theorem drop_leaf_preserves t : validate t = true -> wf t -> (2 <= length t)%nat ->
-  child_lists_nodup (nth (length t - 2) t []) ->
   exists t', drop_leaf_level t = TOk t' /\
     validate t' = true /\ wf t' /\ length t' = (length t - 1)%nat /\
     (forall k, (k < length t - 1)%nat -> nodes (nth k t' []) = nodes (nth k t [])) /\
@@ -510,7 +485,7 @@ Theorem drop_leaf_preserves t : validate t = true -> wf t -> (2 <= length t)%nat
     (forall x, children_of (leaf_level t') x =
                flat_map (children_of (leaf_level t)) (children_of (nth (length t - 2) t []) x)).
 Proof.
-  intros V W H N. exists (raw_drop t (length t - 1)).
+  intros V W H. exists (raw_drop t (length t - 1)).
   split; [apply drop_leaf_level_accepted; assumption|].
   split; [apply raw_drop_leaf_validate; assumption|]. split; [apply raw_drop_wf; exact W|].
   split; [apply raw_drop_length; lia|]. split; [|split].
@@ -560,17 +535,18 @@ Theorem drop_levels_preserve lis : forall t, validate t = true -> wf t -> drops_
     leaf_level t' = leaf_level t /\ flatten t' = flatten t /\
     (forall k, nodes (nth k t' []) = nodes (nth (up_levels lis k) t [])) /\
     (forall j x k, ancestor_at t' j x k = ancestor_at t (up_levels lis j) x (up_levels lis k)) /\
-    (inner_nodup t -> inner_nodup t').
+    inner_nodup t'.
 Proof.
   induction lis as [|li rest IH]; intros t V W OK.
-  - exists t. cbn [drop_levels length up_levels]. rewrite Nat.sub_0_r. repeat (split; [reflexivity || assumption|]). tauto.
+  - exists t. cbn [drop_levels length up_levels]. rewrite Nat.sub_0_r. repeat (split; [reflexivity || assumption|]).
+    apply validate_inner_nodup. exact V.
   - destruct OK as [Hli OK]. destruct (drop_preserves t li V W Hli) as (t1 & E1 & V1 & W1 & L1 & LL1 & N1 & _ & A1 & I1).
     rewrite <- L1 in OK. destruct (IH t1 V1 W1 OK) as (t' & E & V' & W' & L' & LL' & F' & N' & A' & I').
     exists t'. cbn [drop_levels]. rewrite E1. split; [exact E|]. split; [exact V'|]. split; [exact W'|].
     split; [cbn [length]; lia|]. split; [congruence|].
     split; [rewrite F'; unfold flatten; rewrite LL1; reflexivity|].
     split; [intros k; cbn [up_levels]; rewrite N', N1; reflexivity|].
-    split; [intros j x k; cbn [up_levels]; rewrite A', A1; reflexivity | tauto].
+    split; [intros j x k; cbn [up_levels]; rewrite A', A1; reflexivity | exact I'].
 Qed.
 
 
@@ -596,21 +572,4 @@ Proof.
         apply in_flat_map. exists c. split; [apply (parent_of_children t k x c W H)|].
         apply (IH (S k) c l); [lia | lia | exact Ec]. }
   intros k x l Hk. apply (G (length t - 1 - k)%nat); lia.
-Qed.
-
-(* ------------------------------------------------------------------ deciding the side conditions on concrete trees *)
-Fixpoint inner_nodup_b (t : tree) : bool :=
-  match t with
-  | [] => true
-  | lv :: rest => match rest with
-                  | [] => true
-                  | _ :: _ => forallb (fun nc => znodup_b (snd nc)) lv && inner_nodup_b rest
-                  end
-  end.
-Lemma inner_nodup_small t : inner_nodup_b t = true -> inner_nodup t.
-Proof.
-  induction t as [|lv rest IH]; [intros _; exact Logic.I|]. cbn [inner_nodup_b inner_nodup].
-  destruct rest as [|lv2 rest]; [intros _; exact Logic.I|]. intros H. apply andb_true_iff in H. destruct H as [H1 H2].
-  split; [|apply IH; exact H2]. intros p cs Hin. apply znodup_b_spec.
-  apply (proj1 (forallb_forall _ _) H1 (p, cs) Hin).
 Qed.
